@@ -239,6 +239,7 @@ pub struct ScriptedEnv {
     pub trace: RefCell<Vec<String>>,
     pub impure_called: RefCell<bool>,
     pub pure_of: HashMap<String, bool>,
+    pub arity_reg: HashMap<String, Arity>,   // the arity each scripted function was REGISTERED with (the oracle's own copy)
 }
 fn dummy(_p: &[Value]) -> NativeResult {
     Ok(Value::Boolean(false))
@@ -284,6 +285,7 @@ pub fn scripted_env(vars: &Sx, fns: &Sx) -> ScriptedEnv {
         trace: RefCell::new(vec![]),
         impure_called: RefCell::new(false),
         pure_of: HashMap::new(),
+        arity_reg: HashMap::new(),
     };
     for v in &list(vars)[1..] {
         let p = list(v);
@@ -303,6 +305,7 @@ pub fn scripted_env(vars: &Sx, fns: &Sx) -> ScriptedEnv {
         let ar = arity_of(&p[2]);
         env.inner.add_function(if pure { Function::new(dummy, ar, &name) } else { Function::impure(dummy, ar, &name) });
         env.pure_of.insert(name.clone(), pure);
+        env.arity_reg.insert(name.clone(), ar);
         env.fns.insert(name, kind);
     }
     env
@@ -333,7 +336,14 @@ fn is_lit(e: &Expression) -> bool {
     matches!(e, Expression::Literal { .. })
 }
 // independent syntactic check of C06's "no constant-foldable node"
-pub fn foldable(env: &impl Environment, e: &Expression) -> bool {
+// the syntactic predicate of C06, decided from the REGISTRATION data of the case (name, arity, purity) - not by asking the environment under test
+pub fn foldable(env: &ScriptedEnv, e: &Expression) -> bool {
+    let within = |name: &str, n: usize| match env.arity_reg.get(name) {
+        Some(Arity::Polyadic { required, optional }) => n >= *required && n <= required + optional,
+        Some(Arity::Variadic) => n >= 1,
+        Some(Arity::None) => n == 0,
+        None => false,
+    };
     match e {
         Expression::Unary { right, .. } => is_lit(right) || foldable(env, right),
         Expression::Binary { left, right, .. } => (is_lit(left) && is_lit(right)) || foldable(env, left) || foldable(env, right),
@@ -343,7 +353,7 @@ pub fn foldable(env: &impl Environment, e: &Expression) -> bool {
         Expression::Array { expressions } => expressions.iter().all(is_lit) || expressions.iter().any(|x| foldable(env, x)),
         Expression::Call { name, params } => {
             (name == "if_then" && params.len() == 3)
-                || (params.iter().all(is_lit) && matches!(env.function_exists(name, params.len()), FunctionResult::Exists { pure: true }))
+                || (params.iter().all(is_lit) && env.pure_of.get(name) == Some(&true) && within(name, params.len()))
                 || params.iter().any(|x| foldable(env, x))
         }
         _ => false,
